@@ -376,6 +376,8 @@ class LocationTable:
         DuplicatedPacketException
             If the packet is duplicated.
         """
+        # purge first: an expired LocTE must not be revived with its old IS_NEIGHBOUR flag and DPL
+        self.refresh_table()
         with self.loc_t_lock:
             entry = self.loc_t.get(position_vector.gn_addr)
             if entry is None:
@@ -409,6 +411,8 @@ class LocationTable:
             If the packet is duplicated.
         """
         so_pv = guc_extended_header.so_pv
+        # purge first: an expired LocTE must not be revived with its old IS_NEIGHBOUR flag and DPL
+        self.refresh_table()
         with self.loc_t_lock:
             entry: LocationTableEntry | None = self.get_entry(so_pv.gn_addr)
             is_new_entry = entry is None
@@ -447,6 +451,8 @@ class LocationTable:
         DuplicatedPacketException
             If the packet is duplicated.
         """
+        # purge first: an expired LocTE must not be revived with its old IS_NEIGHBOUR flag and DPL
+        self.refresh_table()
         with self.loc_t_lock:
             entry: LocationTableEntry | None = self.get_entry(
                 tsb_extended_header.so_pv.gn_addr)
@@ -484,6 +490,8 @@ class LocationTable:
             If the packet is duplicated.
         """
         so_pv = gbc_extended_header.so_pv
+        # purge first: an expired LocTE must not be revived with its old IS_NEIGHBOUR flag and DPL
+        self.refresh_table()
         with self.loc_t_lock:
             entry: LocationTableEntry | None = self.get_entry(so_pv.gn_addr)
             is_new_entry = entry is None
@@ -526,6 +534,8 @@ class LocationTable:
             If the packet is duplicated.
         """
         so_pv = ls_request_header.so_pv
+        # purge first: an expired LocTE must not be revived with its old IS_NEIGHBOUR flag and DPL
+        self.refresh_table()
         with self.loc_t_lock:
             entry: LocationTableEntry | None = self.get_entry(so_pv.gn_addr)
             is_new_entry = entry is None
@@ -568,6 +578,8 @@ class LocationTable:
             If the packet is duplicated.
         """
         so_pv = ls_reply_header.so_pv
+        # purge first: an expired LocTE must not be revived with its old IS_NEIGHBOUR flag and DPL
+        self.refresh_table()
         with self.loc_t_lock:
             entry: LocationTableEntry | None = self.get_entry(so_pv.gn_addr)
             is_new_entry = entry is None
@@ -605,6 +617,8 @@ class LocationTable:
         DuplicatedPacketException
             If the packet is duplicated.
         """
+        # purge first: an expired LocTE must not be revived with its old IS_NEIGHBOUR flag and DPL
+        self.refresh_table()
         with self.loc_t_lock:
             entry: LocationTableEntry | None = self.get_entry(
                 gbc_extended_header.so_pv.gn_addr)
